@@ -277,6 +277,29 @@ def execute(case):
                         {"index": k, "delivered": got, "expected": want,
                          "lines": case["lines"][want["span"][0] - 1:want["span"][1]]})
                 break
+        if not case["ignore_comments"] and not violations:
+            # source order between comment and statement items (weak, sound form): a comment on
+            # physical line L is delivered after every statement that ends on or before L and
+            # before every statement that starts after L
+            last_end = 0          # largest span end of the statements delivered so far
+            for k, sg in enumerate(sigs):
+                if sg[0] == "Comment":
+                    line_no = sg[4][0]
+                    later = [t for t in sigs[k + 1:] if t[0] != "Comment" and t[4][1] <= line_no]
+                    if later:
+                        violate("C12.a comment-order", "comment-delivered-before-a-statement-"
+                                "that-ends-on-or-before-its-line/%s" % case["form"],
+                                {"comment": sg, "statement": later[0]})
+                        break
+                else:
+                    earlier = [t for t in sigs[:k] if t[0] == "Comment" and t[1].strip()
+                               and t[4][0] > sg[4][1]]
+                    if earlier:
+                        violate("C12.a comment-order", "comment-delivered-before-an-earlier-"
+                                "statement/%s" % case["form"],
+                                {"comment": earlier[0], "statement": sg})
+                        break
+                    last_end = max(last_end, sg[4][1])
         if eof_at is None and not case["ignore_comments"] and \
                 case.get("expected_comments") is not None:
             got_c = sorted(s[1].strip() for s in sigs if s[0] == "Comment" and s[1].strip())
